@@ -74,9 +74,13 @@ type VCell struct {
 	Val     [2]byte // the stored (2-byte) value
 }
 
+// the atomix namespace of path-value maps: a primitive is identified by its NAME alone, so the store's committed and
+// applied maps are two primitives exactly when the real getTarget gives them two names
+const VNames = 2
+
 var (
-	VCommitted [VNP]VCell               // committed values of the configuration
-	VApplied   [VNP]VCell               // applied values
+	VMapNames  [VNames]string
+	VMapCells  [VNames][VNP]VCell
 	VConfig    *configapi.Configuration // the configuration record (without values), nil = not created
 	VConfigVer uint64
 )
@@ -228,6 +232,29 @@ func (t *vTxn) Commit() ([]*vEntry, error) {
 	return nil, nil
 }
 
+// vCloneCfg: the record map holds the MARSHALLED configuration: a write snapshots the record including whatever value
+// maps are still embedded in it, a read returns a fresh copy
+func vCloneCfg(v *configapi.Configuration) *configapi.Configuration {
+	c := *v
+	c.Values = vClonePVs(v.Values)
+	c.Status.Applied.Values = vClonePVs(v.Status.Applied.Values)
+	return &c
+}
+
+func vClonePVs(m map[string]*configapi.PathValue) map[string]*configapi.PathValue {
+	if len(m) == 0 {
+		return nil
+	}
+	out := make(map[string]*configapi.PathValue)
+	for i := 0; i < VNP; i++ {
+		if pv, ok := m[VPath(i)]; ok && pv != nil {
+			c := *pv
+			out[VPath(i)] = &c
+		}
+	}
+	return out
+}
+
 // the "configurations" map: one record
 type vCfgMap struct {
 	_map.Map[configapi.ConfigurationID, *configapi.Configuration]
@@ -239,9 +266,8 @@ func (m *vCfgMap) Get(ctx context.Context, key configapi.ConfigurationID, opts .
 	if key != VConfigID || VConfig == nil {
 		return nil, atomixerrors.NewNotFound("configuration not found")
 	}
-	c := *VConfig
 	e := &vCfgEntry{Key: key}
-	e.Value = &c
+	e.Value = vCloneCfg(VConfig)
 	e.Version = primitive.Version(VConfigVer)
 	return e, nil
 }
@@ -250,8 +276,7 @@ func (m *vCfgMap) Insert(ctx context.Context, key configapi.ConfigurationID, val
 	if VConfig != nil {
 		return nil, atomixerrors.NewAlreadyExists("configuration exists")
 	}
-	c := *value
-	VConfig = &c
+	VConfig = vCloneCfg(value)
 	VConfigVer = 1
 	e := &vCfgEntry{Key: key}
 	e.Value = value
@@ -268,8 +293,7 @@ func (m *vCfgMap) Update(ctx context.Context, key configapi.ConfigurationID, val
 			return nil, atomixerrors.NewConflict("version")
 		}
 	}
-	c := *value
-	VConfig = &c
+	VConfig = vCloneCfg(value)
 	VConfigVer++
 	e := &vCfgEntry{Key: key}
 	e.Value = value
@@ -277,12 +301,29 @@ func (m *vCfgMap) Update(ctx context.Context, key configapi.ConfigurationID, val
 	return e, nil
 }
 
-// NewStoreForVerif: the real store type over the stub maps
+// VerifNamedMap is what the SDK's map builder resolves to in the symbolic run (engine cut atomix-map-by-name on
+// mapBuilder.Get): the stub primitive bound to that name, created on first use.
+func VerifNamedMap(name string) _map.Map[string, *configapi.PathValue] {
+	for i := 0; i < VNames; i++ {
+		if VMapNames[i] == "" {
+			VMapNames[i] = name
+		}
+		if VMapNames[i] == name {
+			return &vPVMap{cells: &VMapCells[i]}
+		}
+	}
+	verifrt.Assert(false, "harness: more distinct path-value primitives than modelled")
+	return nil
+}
+
+// NewStoreForVerif: the real store type; the record map is a stub, the path-value maps are resolved by the REAL
+// getTarget through the SDK builder (symbolic run: VerifNamedMap; native replay: the atomix in-memory test client).
 func NewStoreForVerif() Store {
 	return &configurationStore{
+		client:         vClient(),
 		configurations: &vCfgMap{},
-		committed:      map[configapi.ConfigurationID]_map.Map[string, *configapi.PathValue]{VConfigID: &vPVMap{cells: &VCommitted}},
-		applied:        map[configapi.ConfigurationID]_map.Map[string, *configapi.PathValue]{VConfigID: &vPVMap{cells: &VApplied}},
+		committed:      make(map[configapi.ConfigurationID]_map.Map[string, *configapi.PathValue]),
+		applied:        make(map[configapi.ConfigurationID]_map.Map[string, *configapi.PathValue]),
 	}
 }
 
